@@ -497,15 +497,19 @@ def c06_stress():
         if st['rc'] != 0 or st['error']:
             raise Infra('Trace_Conc failed: %s' % (st['error'] or ''))
         viol = []
+        overlaps = open(st['log'], errors='replace').read().count('<<"overlap"')
+        if overlaps:
+            print('[%s/%s] NOTE: %d parser sections overlap in the recorded hook trace: Parse is not serialised by one mutex in this tree; '
+                  'Conc!MutualExclusion does not describe it (no verdict from it: the race detector and the sequential comparison decide)' % (pid, tier, overlaps))
         if st['distinct'] != n + 1:
             ev = open(tr).read().splitlines()
             k = st['distinct'] - 1
             ctx = ev[max(0, k - 6):k + 1]
             viol.append({'property': 'C06', 'kind': 'hook-trace-rejected', 'path': 'event %d of %d' % (k + 1, n), 'document': '', 'signature': 'trace',
-                         'detail': 'the recorded hook trace is not a behaviour of Conc: event %s is not enabled (two holders of one buffer / overlapping parser sections). Preceding events: %s' % (ev[k] if k < len(ev) else '?', ' '.join(ctx)),
+                         'detail': 'the recorded hook trace is not a behaviour of Conc: event %s is not enabled (a pooled buffer handed to a second goroutine while the first still holds it, or given back by somebody who does not hold it). Preceding events: %s' % (ev[k] if k < len(ev) else '?', ' '.join(ctx)),
                          'case': json.dumps({'fam': 'trace', 'events': ctx})})
         return dict(tlc_runs=[{k: st[k] for k in ('label', 'cmd', 'generated', 'distinct', 'wall_s')}], cases=1, distinct=0,
-                    counters={'hook-events-validated': st['distinct'] - 1, 'hook-events-recorded': n}, samples=[], violations=viol, known_hits=[], exhaustive=False)
+                    counters={'hook-events-validated': st['distinct'] - 1, 'hook-events-recorded': n, 'parser-sections-overlapping': overlaps}, samples=[], violations=viol, known_hits=[], exhaustive=False)
     return dict(kind='custom', fn=fn)
 
 
